@@ -720,9 +720,20 @@ class IPPO(MultiAgentRLAlgorithm):
                     _, _, entropy = actor(batch_states)
                     value = critic(batch_states).squeeze(-1)
 
-                    # squeeze() removed the action dimension of one-dimensional Box actions
-                    if isinstance(action_space, spaces.Box) and action_space.shape == (
-                        1,
+                    # squeeze() removed the action dimension of single-component actions
+                    if (
+                        (
+                            isinstance(action_space, spaces.Box)
+                            and action_space.shape == (1,)
+                        )
+                        or (
+                            isinstance(action_space, spaces.MultiBinary)
+                            and action_space.n == 1
+                        )
+                        or (
+                            isinstance(action_space, spaces.MultiDiscrete)
+                            and len(action_space.nvec) == 1
+                        )
                     ):
                         batch_actions = batch_actions.unsqueeze(1)
 
